@@ -1483,7 +1483,22 @@ def unique(a, return_index=False, return_counts=False, return_inverse=False, axi
         raise ModelGap("unique with axis=%r" % (axis,))
     # group by equality first (first occurrence kept), then order the representatives
     reps, first, counts, inv = [], [], [], []
+    plain = _plain_keys(keys)
+    index = {}
     for i, k in enumerate(keys):
+        if plain:  # concrete keys: group through a hash table (same groups, same first occurrences)
+            k0 = _unbox(k) if not isinstance(k, tuple) else tuple(_unbox(x) for x in k)
+            g = index.get(k0)
+            if g is None:
+                index[k0] = len(reps)
+                reps.append(k)
+                first.append(i)
+                counts.append(1)
+                inv.append(len(reps) - 1)
+            else:
+                counts[g] += 1
+                inv.append(g)
+            continue
         for g, r in enumerate(reps):
             if same(k, r):
                 counts[g] += 1
@@ -1504,6 +1519,17 @@ def unique(a, return_index=False, return_counts=False, return_inverse=False, axi
     if return_counts:
         out.append(ndarray.fresh([counts[g] for g in order], (len(order),), "i8"))
     return out[0] if len(out) == 1 else tuple(out)
+
+
+def _plain_keys(keys):
+    for k in keys:
+        for v in (k if isinstance(k, tuple) else (k,)):
+            v = _unbox(v)
+            t = type(v)
+            if t is str or t is int or t is bool or (t is float and v == v):
+                continue
+            return False
+    return True
 
 
 def _flat_any(x):
